@@ -8,7 +8,7 @@ CONSTANTS
   Lens = {1, 2}
   Vals = {0, 1}
   NameSet = {"-"}
-  MaxDepth = 8
+  MaxDepth = 6
   MaxCols = 1
   Emit = FALSE
   ObsV = {}
